@@ -1,4 +1,4 @@
-\* object level, as found, one more loop per connection
+\* object level, as found, two connections over two print / reset calls
 SPECIFICATION SpecObj
 CONSTANTS
   Conns = {"c1", "c2"}
@@ -7,10 +7,11 @@ CONSTANTS
   CCs = {"", "US"}
   Variant = "as_found"
   Broken = "none"
-  MaxLoops = 1
+  MaxLoops = 0
   MaxPrints = 2
   MaxAuth = 0
 VIEW view
+CONSTRAINT Canon
 INVARIANTS TypeOK GaugeExact NoDoubleCount AsnLedger OutcomeSum AsnSumsEpoch QuiescentZero
 PROPERTIES PrintKeepsGauges
 CHECK_DEADLOCK FALSE
